@@ -40,6 +40,8 @@ fn check_htyp(h: u8) -> CheckResult {
                     // returns still carries the flags this byte prescribes
                     check_htyp_in(h, ecu_bytes, ecu_text, canonical, storage, fidx, 1)?;
                     check_htyp_in(h, ecu_bytes, ecu_text, false, storage, fidx, 2)?;
+                    // ... and one whose string fills its size without the terminating NUL (re-encoding appends one)
+                    check_htyp_in(h, ecu_bytes, ecu_text, false, storage, fidx, 3)?;
                 }
             }
         }
@@ -88,7 +90,7 @@ fn check_htyp_in(
         b.extend_from_slice(&[9, 8, 7, 6]);
     } else {
         // UINT 16 bit = 0x1234 and a string "ab": payload 1 in the announced order, payload 2 in the other one
-        let big = (h & MSBF != 0) == (payload == 1);
+        let big = (h & MSBF != 0) == (payload != 2);
         let w32 = |v: u32| {
             if big {
                 v.to_be_bytes()
@@ -107,7 +109,7 @@ fn check_htyp_in(
         b.extend_from_slice(&w16(0x1234));
         b.extend_from_slice(&w32(0x200));
         b.extend_from_slice(&w16(3));
-        b.extend_from_slice(b"ab\0");
+        b.extend_from_slice(if payload == 3 { b"abc" } else { b"ab\0" });
     }
     let len = (b.len() - start) as u16;
     b[start + 2..start + 4].copy_from_slice(&len.to_be_bytes());
